@@ -13,16 +13,21 @@ theorem gen_canon_ok :
 theorem gen_canon_complete :
     (valueModifiers ++ listModifiers).all (fun m => Gen.Ser.canonTable.any (fun r => r.1 == m)) = true := by decide
 
-/-- the classification behind `disable` / `resync` / `rename` / `split` of the model: these, and only
-these, places of the transformations package call `disable_conversion_to_plain()` or assign
+/-- the classification behind `disable` / `valueTouch` / `rename` / `split` of the model: these, and
+only these, places of the transformations package call `disable_conversion_to_plain()` or assign
 `original_value`, under these conditions -/
 theorem gen_touch_sites : Gen.Ser.touchSites = [
     ("base", "DetectionItemTransformation", "apply_detection", "disable", "isinstance(r, SigmaDetectionItem)"),
     ("base", "FieldMappingTransformationBase", "apply_detection", "disable",
       "isinstance(r, SigmaDetectionItem) and r.value is not value_before"),
-    ("base", "ValueTransformation", "apply_detection", "disable", "isinstance(r, SigmaDetectionItem) && r.modifiers"),
+    ("base", "FieldMappingTransformationBase", "apply_detection_item", "disable",
+      "not (isinstance(mapping, str)) && detection_item.original_value is None or fieldref_match or detection_item.field is None"),
+    ("base", "FieldMappingTransformationBase", "apply_detection_item", "original_value = detection_item.original_value.copy()",
+      "not (isinstance(mapping, str)) && not (detection_item.original_value is None or fieldref_match or detection_item.field is None)"),
+    ("base", "ValueTransformation", "apply_detection", "disable",
+      "isinstance(r, SigmaDetectionItem) && r.modifiers or not all((type(v) in (SigmaString, SigmaNumber, SigmaBool, SigmaNull) for v in r.value))"),
     ("base", "ValueTransformation", "apply_detection", "original_value = r.value.copy()",
-      "isinstance(r, SigmaDetectionItem) && not (r.modifiers)")] := by decide
+      "isinstance(r, SigmaDetectionItem) && not (r.modifiers or not all((type(v) in (SigmaString, SigmaNumber, SigmaBool, SigmaNull) for v in r.value)))")] := by rfl
 
 /-- the loops that replace detection items: the three base classes, and `drop_detection_item`, which
 goes through the inherited loop -/
